@@ -36,6 +36,11 @@ DEEPENING ROUND (after /repo 680d931 repaired Graph(...)):
     convenience functions (multi-pair replace_all_uses_with with its pre-validation, rename_values,
     replace_nodes_and_values) - not moved for lack of time; the frame proof of the multi-pair call needs the soundness of
     its ownership simulation, which is the substantial part.
+  * upstream drift caught by the tie during this round: /repo f54d66f changed the naming order inside Graph() (explicit
+    input / initializer names are registered before unnamed inputs are named); the next quick run reported
+    correspondence:core-heap-model on the random stream within 30 s; `graph_init` was updated to the new order.
+  * quick tier: all single ops and a seeded half of the op x op pairs of the 74-op container alphabet (thorough: all
+    pairs + 12 % of the triples) to stay well under 90 s on a loaded machine (20-50 s at load 30).
   * the generator never nests a graph inside itself (a node holding graph S as attribute is not added to S or to a graph
     reachable from S): Graph.sort / traversal do not terminate on such input (RecursionError), which is outside C01/C06.
 
